@@ -396,11 +396,17 @@ pub fn run(args: &Args, rep: &mut Report) {
             }
         }
         "C02" => {
-            let pools: &[usize] = if thorough { &[1, 2, 3, 5, 8, 16] } else { &[1, 2, 5, 16] };
-            let seeds = if thorough { 4 } else { 2 };
-            let n = scale(2_000.0, 60_000.0);
+            let miri = args.regime == "miri";
+            let pools: &[usize] = if miri { &[1, 3] } else if thorough { &[1, 2, 3, 5, 8, 16] } else { &[1, 2, 5, 16] };
+            let seeds = if miri { 1 } else if thorough { 4 } else { 2 };
+            let n = if miri { 1 } else { scale(2_000.0, 60_000.0) };
             for _ in 0..n {
-                let o = opts_for("C02", &mut r);
+                let mut o = opts_for("C02", &mut r);
+                if miri {
+                    // the interpreter is ~10^4 times slower: one small scenario per shard
+                    o.max_nodes = 4;
+                    o.max_solutions = 2;
+                }
                 let sc = scengen::gen_scenario(&mut r, &o);
                 let mut first: Option<(RealVerdict, usize, u64)> = None;
                 let mut first_dg: Option<BTreeMap<(Word, Word), Vec<Word>>> = None;
@@ -409,7 +415,7 @@ pub fn run(args: &Args, rep: &mut Report) {
                         let ds = if s == 0 { 0 } else { r.next_u64() | 1 };
                         let (_, real, _) = e.judge(&sc, p, ds, "pool-matrix");
                         let dg = std::mem::take(&mut e.last_digests);
-                        if s == 0 && (p == 1 || p == 16) {
+                        if s == 0 && (p == 1 || p == 16) && !miri {
                             // the other entry points (Outputs then Checks over a shared cache) under the same pools
                             let (_, m, _) = e.judge(&sc, p, 0, "manual-two-phase");
                             if let Some((f, p0, _)) = &first {
